@@ -7,7 +7,7 @@ from ..common import CaseInfo, Violation
 from ..models import tick_violation
 from ..oracles import Analysis
 from ..simharness import IndexMarket, MarketStepBeginLog, OrderLog, run_case
-from ..strategies import program_strategy, spec_strategy
+from ..strategies import market_names, program_strategy, spec_strategy
 from ._sim_common import frac, summarize
 
 ID = "C14"
@@ -32,7 +32,7 @@ OPTS = {"fundamentals": True}
 @st.composite
 def fund_cases(draw, tier):
     nm = draw(st.integers(2, 4))
-    names = [f"M{i}" for i in range(nm)]
+    names = market_names(draw, nm)
     cfg = {"simulation": {"markets": list(names), "agents": ["A0"], "sessions": []}}
     zero = draw(st.integers(0, 4)) < 3
     for n in names:
@@ -137,7 +137,7 @@ def fund_check(case):
 @st.composite
 def mistake_cases(draw, tier):
     nm = draw(st.integers(2, 3))
-    names = [f"M{i}" for i in range(nm)]
+    names = market_names(draw, nm)
     cfg = {"simulation": {"markets": list(names), "agents": ["A0", "A1"], "sessions": []}}
     for n in names:
         cfg[n] = {"class": "Market", "tickSize": draw(st.sampled_from([1.0, 0.5, 0.1])), "marketPrice": draw(st.sampled_from([100.0, 250.0]))}
